@@ -230,12 +230,12 @@ class ParseMCNPCell:
         while kw_list:
             elt = kw_list.pop()
             if elt.startswith('imp'):
-                importance = float(kw_list.pop())
-                if 'importance' in keywords:
-                    keywords['importance'] = max(importance,
-                                                 keywords['importance'])
-                else:
-                    keywords['importance'] = importance
+                # keep the largest importance over the particle types, but
+                # let a repeated keyword (LIKE n BUT) override the earlier one
+                importances = keywords['importances'] or {}
+                importances[elt] = float(kw_list.pop())
+                keywords['importances'] = importances
+                keywords['importance'] = max(importances.values())
             elif 'fill' in elt:
                 f_bounds, f_univs, f_params = self.parse_fill_kw(elt, kw_list)
                 keywords['f_bounds'] = f_bounds
